@@ -9,8 +9,27 @@ LEAF_CLASSES = ['Device', 'PVDevice', 'CDevice', 'CDevice2', 'IDevice', 'IDevice
 
 def pick_n(rng, tier, nmax=None):
   if tier == 'thorough':
-    return rng.choice([1, 2, 3, 4, 5, 6, 7, 8, 9, 12, 16, 24, 31] if nmax is None else list(range(1, nmax + 1)))
+    return rng.choice([1, 2, 3, 4, 5, 6, 7, 8, 9, 12, 16, 24, 25, 31, 48, 60] if nmax is None else list(range(1, nmax + 1)))
+  if nmax is None and rng.random() < 0.05:
+    return rng.choice([12, 16, 24, 25, 31, 48])      # the horizon is not bounded by anything small (nor is it always 24)
   return rng.choice([1, 2, 2, 3, 3, 4, 5, 6, 8] if nmax is None else list(range(1, nmax + 1)))
+
+
+NO_DEC = bool(__import__('os').environ.get('VERIF_NO_DECIMALS'))
+P_DEC = 0.25      # share of prices / interior flows / cost parameters drawn as NON-dyadic decimals (k/1000): the model computes
+                  # them exactly, the implementation in binary floating point (error ~1e-16 << the 1e-9 comparison tolerance);
+                  # dyadics with <= 3 fractional bits are exact even in float16, so they cannot see a precision-reducing edit
+
+
+def dec(rng, lo, hi):
+  """a decimal rational k/1000 in [lo, hi] (falls back to lo when the interval holds none)."""
+  a, b = __import__('math').ceil(F(lo)*1000), __import__('math').floor(F(hi)*1000)
+  return Fraction(rng.randint(a, b), 1000) if a <= b else F(lo)
+
+
+def nudge(rng):
+  """a small positive non-dyadic offset k/1000 < 1/8."""
+  return Fraction(rng.choice([1, 3, 7, 13, 37, 41, 73, 99, 101, 123]), 1000)
 
 
 def gen_bounds(rng, n, lo=-4, hi=4, sign=None, zero_width=0.2):
@@ -44,6 +63,7 @@ def gen_bounds(rng, n, lo=-4, hi=4, sign=None, zero_width=0.2):
 def gen_flow(rng, lb, hb, mode=None):
   """an in-bounds flow: interior, on bounds, or mixed."""
   mode = mode or rng.choice(['interior', 'interior', 'mixed', 'lower', 'upper'])
+  deci = (not NO_DEC) and rng.random() < P_DEC
   s = []
   for a, b in zip(lb, hb):
     if mode == 'lower':
@@ -54,15 +74,18 @@ def gen_flow(rng, lb, hb, mode=None):
       t = Fraction(rng.randint(1, 7), 8)
     else:
       t = Fraction(rng.randint(0, 8), 8)
+    if deci and 0 < t < 1:
+      t = Fraction(rng.randint(1, 999), 1000)
     s.append(a + t*(b - a))
   return s
 
 
 def gen_price(rng, n):
   """scalar or per-slot price of any sign."""
+  d_ = dec if ((not NO_DEC) and rng.random() < P_DEC) else (lambda r, a, b: dy(r, a, b, 3))
   if rng.random() < 0.4:
-    return fs(dy(rng, -3, 3, 3))
-  return [fs(dy(rng, -3, 3, 3)) for _ in range(n)]
+    return fs(d_(rng, -3, 3))
+  return [fs(d_(rng, -3, 3)) for _ in range(n)]
 
 
 def svec(rng, n, f, p_vec=0.5):
@@ -229,7 +252,42 @@ def gen_leaf(rng, tier='quick', classes=None, n=None, with_cbounds=None):
               't_external': L([dy(rng, -8, 30, 1) for _ in range(n)]), 'c': svec(rng, n, lambda: dy(rng, 0, 3), 0.4)})
   elif cls == 'ADevice':
     p['f'] = gen_fn(rng, n, lb, hb)
+  if (not NO_DEC) and rng.random() < P_DEC:
+    decimalize(rng, d)
   return d
+
+
+def decimalize(rng, d):
+  """move some cost parameters of a leaf description off the dyadic grid by a small decimal offset, in the direction that
+  keeps every acceptance condition (a <= 0, p_l <= p_h <= 0, c2 <= c1, coefficients >= 0, ...)."""
+  p = d['prm']; cls = d['cls']
+  def sh(k, sign):
+    v = p.get(k)
+    if v is None:
+      return
+    if isinstance(v, list):
+      if v and isinstance(v[0], list):
+        p[k] = [[fs(F(x) + sign*nudge(rng)) if F(x) != 0 else x for x in row] for row in v]
+      else:
+        p[k] = [fs(F(x) + sign*nudge(rng)) if F(x) != 0 else x for x in v]
+    elif F(v) != 0:
+      p[k] = fs(F(v) + sign*nudge(rng))
+  if cls == 'CDevice':
+    sh('a', -1); sh('b', +1)
+  elif cls in ('CDevice2', 'IDevice2'):
+    if isinstance(p.get('p_l'), list) == isinstance(p.get('p_h'), list):
+      same = p.get('p_l') == p.get('p_h')
+      sh('p_l', -1)
+      if same and rng.random() < 0.5:
+        p['p_h'] = p['p_l']          # keep the equal-slopes corner
+  elif cls == 'IDevice':
+    sh('c', +1)
+  elif cls == 'GDevice':
+    sh('cost_coeffs', +1)
+  elif cls == 'SDevice':
+    sh('c1', +1); sh('c3', +1)
+  elif cls == 'TDevice':
+    sh('c', +1); sh('t_init', +1)
 
 
 def leaf_flow(rng, d, mode=None):
@@ -364,8 +422,9 @@ def tree_flow(rng, t, n, mode=None):
 
 def gen_price_mat(rng, R, n):
   q = rng.random()
+  d_ = dec if ((not NO_DEC) and rng.random() < P_DEC) else (lambda r, a, b: dy(r, a, b, 3))
   if q < 0.3:
-    return fs(dy(rng, -3, 3, 3))
+    return fs(d_(rng, -3, 3))
   if q < 0.6:
-    return [fs(dy(rng, -3, 3, 3)) for _ in range(n)]
-  return [[fs(dy(rng, -3, 3, 3)) for _ in range(n)] for _ in range(R)]
+    return [fs(d_(rng, -3, 3)) for _ in range(n)]
+  return [[fs(d_(rng, -3, 3)) for _ in range(n)] for _ in range(R)]
